@@ -4,7 +4,7 @@ from .. import common, gen, mergecorr, ser
 
 TRUSTED_COMMON = [
     'Coq 8.16.1 kernel and vm_compute (used for FactsOk lemmas, finite sweeps, refutation witnesses and for evaluating the model in the generated case files); no native_compute',
-    'tools/extract_facts.py (T1 extractor for constants/tables), tools/translate_src.py (T1b Python-ast -> Gallina translator for the pure decision functions; its output is proved equal to the model in Proofs/SrcOk.v), vlib/ser.py (Python node -> Coq term printer, string interning), vlib/gen.py (generators)',
+    'tools/extract_facts.py (T1 extractor for constants/tables), tools/translate_src.py (T1b Python-ast -> Gallina translator for the pure decision functions and the field-mutating prefixes of _replace_self / _replace_other / _propagate_implicit_values; its output is proved equal to the model in Proofs/SrcOk.v), vlib/ser.py (Python node -> Coq term printer, string interning), vlib/gen.py (generators)',
     'the hand-written Gallina model is tied to /repo by correspondence (sampled for tree recursion, exhaustive for finite flag logic), not by translation',
     'modelled, not verified: PyYAML (scanner/parser/composer/resolver/emitter), pickle/copy, CPython semantics, error message text',
 ]
@@ -18,7 +18,7 @@ def build(rep):
         _build_cache['b'] = common.build_coq()
     b = _build_cache['b']
     rep.oblige('T1: Gen/Facts.v regenerated from /repo (fail-closed extraction)', b['facts_ok'], b['facts_log'][-500:] if not b['facts_ok'] else '')
-    rep.oblige('T1b: Gen/Src.v translated from the Python source of the flag getters, has_priority_over, _validate_index, _get_child_kwargs (fail-closed translator)',
+    rep.oblige('T1b: Gen/Src.v translated from the Python source of the flag getters, has_priority_over, _validate_index, _get_child_kwargs, the flag part of _replace_self / _replace_other, the guards and the per-child step of _propagate_implicit_values (fail-closed translator)',
                b['src_ok'], b['src_log'][-500:] if not b['src_ok'] else '')
     sok = common.vo_ok('Proofs/SrcOk')
     rep.oblige('coq: Proofs.SrcOk compiles (every translated definition is proved equal to the model function the theorems use)', sok,
